@@ -382,6 +382,9 @@ def replay(pid, r, tmp):
     repo = os.environ.get('VERIF_REPO', '/repo')
     v = r['violation']
     cfg = r['config']
+    if cfg.get('mode') == 'wos':
+        import replay_wos
+        return replay_wos.replay_wos(pid, r, tmp)
     d = tempfile.mkdtemp(prefix='verif-replay-')
     try:
         os.makedirs(os.path.join(d, 'par'))
